@@ -54,7 +54,7 @@ def rtokens(eng, st, rid=None):
         elif e[0] == "skip" and (rid is None or e[1] == rid):
             out.append({"k": "skip", "n": e[2].lin, "rid": e[1], "site": e[3]})
         elif e[0] == "bytes" and (rid is None or e[1] == rid):
-            out.append({"k": "bytes", "n": e[2].lin, "rid": e[1], "site": e[3], "ok": e[4]})
+            out.append({"k": "bytes", "n": e[2].lin, "rid": e[1], "site": e[3], "ok": e[4], "start": e[5] if len(e) > 5 else None})
         elif e[0] == "sub" and (rid is None or e[1] == rid):
             out.append({"k": "sub", "n": e[2].lin, "rid": e[1], "new": e[3], "site": e[4]})
     return out
@@ -154,3 +154,135 @@ def pin_divmods(st, assignments):
                 out.append(c_eq(Lin.sym(r), Lin.const(val % c)))
                 changed = True
     return out
+
+
+# ---------------------------------------------------------------- canonical payload layouts
+
+def _strip(name, prefix="self.*"):
+    if name.startswith(prefix):
+        name = name[len(prefix):]
+    name = name.lstrip(".")
+    return name.replace(".Some.0", "").replace("Some.0", "")
+
+
+def _merge_zero(items):
+    out = []
+    for it in items:
+        if it[0] == "zero" and out and out[-1][0] == "zero":
+            out[-1] = ("zero", out[-1][1] + it[1])
+        else:
+            out.append(it)
+    return out
+
+
+def canon_writer(eng, st, toks, prefix="self.*"):
+    items = []
+    for t in toks:
+        if t["k"] == "int":
+            w = t["n"].c
+            p = t["prov"]
+            if p[0] == "const":
+                items.append(("const", w, p[1]))
+            elif p[0] == "sym":
+                if p[1].endswith("#v"):
+                    items.append(("enum", w, _strip(p[1][:-2], prefix)))
+                else:
+                    items.append(("int", w, _strip(p[1], prefix)))
+            else:
+                items.append(("expr", w, p[1]))
+        elif t["k"] == "bytes":
+            d = t["desc"]
+            if d[0] == "const":
+                if all(x == 0 for x in d[1]):
+                    items.append(("zero", len(d[1])))
+                else:
+                    items.append(("constbytes", tuple(d[1])))
+            elif d[0] == "elems":
+                for e in d[1]:
+                    if isinstance(e, VInt) and e.lin.is_const():
+                        items.append(("zero", 1) if e.lin.c == 0 else ("const", 1, e.lin.c))
+                    else:
+                        p = int_prov(eng, e)
+                        items.append(("int", 1, _strip(p[1], prefix)) if p[0] == "sym" else ("expr", 1, p[1]))
+            elif d[0] == "sym" and len(d) == 2:
+                items.append(("rest", _strip(d[1], prefix)))
+            elif d[0] == "arr" and isinstance(d[3], Lin) and d[3].is_const() and d[3].c == 0 and d[4].is_const():
+                items.append(("bytes", d[4].c, _strip(d[1] or "?", prefix)))
+            else:
+                items.append(("?", repr(d)[:80]))
+        elif t["k"] == "patch":
+            items.append(("patch",))
+    return _merge_zero(items)
+
+
+def canon_reader(eng, st, rt, payload):
+    """canonical items of a decoder path; payload = decoded aggregate (Ok value)"""
+    lv = list(leaves(eng, st, payload)) if payload is not None else []
+    utf8 = [e for e in st.events() if e[0] == "utf8"]
+    items = []
+    for t in rt:
+        if t["k"] == "read":
+            w = t["n"].c
+            f = None
+            for p, v in lv:
+                if isinstance(v, VInt) and v.lin == t["val"].lin:
+                    f = _strip(p, "")
+            items.append(("int", w, f) if f is not None else ("read", w))
+        elif t["k"] == "skip":
+            items.append(("zero", t["n"].c) if t["n"].is_const() else ("skipvar", repr(t["n"])))
+        elif t["k"] == "bytes":
+            if not t.get("ok", True):
+                items.append(("bytes-none",))
+                continue
+            f = None
+            kind = None
+            isutf = None
+            for p, v in lv:
+                src = None
+                if isinstance(v, VArr) and v.src and v.src[0] == "slice":
+                    src = v.src[1]
+                    k2 = "bytes"
+                elif isinstance(v, VVec) and v.segs and len(v.segs) == 1:
+                    src = v.segs[0][1]
+                    k2 = "rest"
+                elif isinstance(v, VSlice) and isinstance(v.base, tuple) and v.base[0] == "rd":
+                    src = ("wire", v.base[1], v.start, v.len)
+                    k2 = "rest"
+                if src is not None and src[0] == "wire" and src[1] == t["rid"] and src[3] == t["n"] and \
+                        (t.get("start") is None or src[2] == t["start"]):
+                    f, kind = _strip(p, ""), k2
+                    isutf = any(u[1] == src and u[2] for u in utf8)
+            if t["n"].is_const():
+                items.append(("bytes", t["n"].c, f))
+            else:
+                items.append(("rest", f, bool(isutf)))
+        elif t["k"] == "sub":
+            items.append(("sub", repr(t["n"])))
+    return _merge_zero(items)
+
+
+def spec_sequences(items):
+    """all presence combinations of a spec item list: list of (sequence, present-set)"""
+    seqs = [([], frozenset())]
+    for it in items:
+        if it["k"] == "opt":
+            inner = spec_sequences(it["items"])
+            new = []
+            for s, pres in seqs:
+                new.append((s, pres))
+                for s2, p2 in inner:
+                    new.append((s + s2, pres | p2 | {it["f"]}))
+            seqs = new
+        else:
+            if it["k"] == "int":
+                c = ("int", it["w"], it["f"])
+            elif it["k"] == "enum":
+                c = ("enum", it["w"], it["f"])
+            elif it["k"] == "zero":
+                c = ("zero", it["n"])
+            elif it["k"] == "bytes":
+                c = ("bytes", it["n"], it["f"])
+            else:
+                c = ("rest", it["f"], bool(it.get("utf8")))
+            seqs = [(s + [c], pres) for s, pres in seqs]
+    return seqs
